@@ -6,10 +6,13 @@ INSTRUMENT = ["internal/loadbalancer", "internal/circuitbreaker", "internal/rate
 CB = "internal/circuitbreaker"
 LB = "internal/loadbalancer"
 RL = "internal/ratelimiter"
+MAIN = "cmd/helios"
 
 ENGINES = [
     dict(name="S", path="engine/shim/vrt", serves_properties=["C02", "C04", "C05", "C06", "C07", "C08", "C09", "C11", "C12", "C13", "C19"],
          kind_free_text="controlled cooperative scheduler + stateless replay DFS with preemption bounding over the real Helios code (sync/atomic/time/go/select rewritten onto shims by vgen)"),
+    dict(name="W", path="engine/shim/wire", serves_properties=["C01"],
+         kind_free_text="exhaustive enumeration of finite input / configuration / fault-sequence products over real connections: raw-socket HTTP/1.1 client, scripted backends on loopback listeners, the real handler chain behind the real http.Server; differential and reference oracles on the exchanged bytes"),
     dict(name="H", path="engine/shim/vh/hrun.go", serves_properties=["C02", "C04", "C05", "C06", "C07", "C08", "C09", "C11", "C12", "C13", "C19"],
          kind_free_text="explicit-state breadth-first search over event histories of the real objects under a virtual clock, reflective state fingerprint for deduplication, reference-model / monitor oracle on every transition"),
 ]
@@ -159,6 +162,18 @@ CHECKS = {
         jobs=[
             dict(name="c20poolh", part="PoolH", pkg=LB, run="TestVerifC20PoolH", mode="instr", shards=dict(quick=8, thorough=8), timeout=dict(quick=600, thorough=3000)),
             dict(name="c20pools", part="PoolS", pkg=LB, run="TestVerifC20PoolS", mode="instr", shards=dict(quick=12, thorough=16), timeout=dict(quick=600, thorough=3000)),
+        ],
+        assumptions=[],
+    ),
+    "C01": dict(
+        level="exploration",
+        engine="W",
+        technique="exhaustive enumeration of a finite product of exchange shapes over real connections with a differential oracle (direct vs through Helios) and a lock-step streaming script",
+        text="A finite product of exchange shapes (methods x request body sizes around the 32 KiB copy buffer x request framing x statuses incl. 103+200 / 204 / 304 / 3xx / 4xx / 5xx x response sizes x response framing {declared length, chunked, chunked with flushes}; a 12-shape core crossed with 6 paths x 4 queries, 11 request-header sets, 6 response-header sets, 3 backend base paths, all five strategies and the request-ID / trace middleware on/off with and without client-supplied IDs) is enumerated; each shape is exchanged twice with the same raw-socket client, directly with the scripted backend and through the real handler chain (buildHandler) behind the real server (createHTTPServer), and what the backend received (method, request-target bytes, end-to-end header multiset, X-Forwarded-For append, framing, body) and what the client received (interim responses, status, header multiset, framing class and Content-Length, body) must agree. 36 lock-step streaming scripts (backend blocks after each flush until the client has read that part through Helios) decide the flushing clause.",
+        note="Sources are unmodified in this engine; time is real but only as a 10-20 s failure detector; a difference counts only if it reproduces five times; Date, hop-by-hop headers and the documented additions are normalised; inputs net/http itself re-spells (';' in queries, raw non-ASCII paths) are outside the alphabet.",
+        jobs=[
+            dict(name="c01stream", part="Stream", pkg=MAIN, run="TestVerifC01Stream", mode="plain", gomaxprocs=4, shards=dict(quick=4, thorough=4), timeout=dict(quick=600, thorough=3000)),
+            dict(name="c01w", part="W", pkg=MAIN, run="TestVerifC01", mode="plain", gomaxprocs=4, shards=dict(quick=8, thorough=12), timeout=dict(quick=600, thorough=3000)),
         ],
         assumptions=[],
     ),
